@@ -212,6 +212,7 @@ def c_lints(ctx, P, scope, rule="C-LINT", tus=None):
     lib_kind.minmax_kind(ctx, P, scope, tus=ltus)
     lib_kind.alloc_domain(ctx, P, scope, tus=ltus)
     lib_kind.span_kind(ctx, P, None, scope, tus=ltus)
+    lib_kind.shifted_index(ctx, P, scope, tus=ltus)
     return n
 
 
